@@ -284,10 +284,10 @@ func executeBinaryExpr(s *ast.AstProcessBinaryExpression, state ProcessState) Pr
 		}
 	} else if lhs_state.currentValue.getType() == bytecode.PTNUMBER {
 		if s.Op == ast.DEQUAL {
-			final := lhs_state.currentValue.getBoolean() == rhs_state.currentValue.getBoolean()
+			final := lhs_state.currentValue.getNumber() == rhs_state.currentValue.getNumber()
 			final_state.currentValue = ProcessValueBoolean{final}
 		} else if s.Op == ast.NEQUAL {
-			final := lhs_state.currentValue.getBoolean() != rhs_state.currentValue.getBoolean()
+			final := lhs_state.currentValue.getNumber() != rhs_state.currentValue.getNumber()
 			final_state.currentValue = ProcessValueBoolean{final}
 		} else if s.Op == ast.LESS {
 			final := lhs_state.currentValue.getNumber() < rhs_state.currentValue.getNumber()
